@@ -38,7 +38,7 @@ type Forge struct {
 }
 
 type Op struct {
-	K     string `json:"k"`               // start flush deliver timeout forge aggregate
+	K     string `json:"k"`               // start startall flush deliver timeout forge aggregate netfail nextheight
 	I     int    `json:"i,omitempty"`     // operator id (start, deliver, timeout)
 	M     int    `json:"m,omitempty"`     // deliver: pool index modulo pool size
 	Types string `json:"types,omitempty"` // flush: subset of "PpCR" (Proposal prepare Commit Round-change), "" = all
@@ -451,11 +451,30 @@ func (s *Sim) byzIDs() []spectypes.OperatorID {
 
 // poolMsgs returns one message per signer of the given type/round matching pred, from the pool (any sender).
 func (s *Sim) poolMsgs(t specqbft.MessageType, round specqbft.Round, pred func(*specqbft.SignedMessage) bool) []*specqbft.SignedMessage {
+	return s.poolMsgsH(t, round, false, pred)
+}
+
+// poolMsgsH: anyHeight = also messages of other heights (replay material), other heights first.
+func (s *Sim) poolMsgsH(t specqbft.MessageType, round specqbft.Round, anyHeight bool, pred func(*specqbft.SignedMessage) bool) []*specqbft.SignedMessage {
 	seen := map[spectypes.OperatorID]bool{}
 	var out []*specqbft.SignedMessage
-	for _, pm := range s.Pool {
+	pool := s.Pool
+	if anyHeight {
+		pool = nil
+		for _, pm := range s.Pool {
+			if pm.Msg.Message.Height != s.Height {
+				pool = append(pool, pm)
+			}
+		}
+		for _, pm := range s.Pool {
+			if pm.Msg.Message.Height == s.Height {
+				pool = append(pool, pm)
+			}
+		}
+	}
+	for _, pm := range pool {
 		m := pm.Msg
-		if m.Message.MsgType != t || m.Message.Round != round || m.Message.Height != s.Height || len(m.Signers) != 1 || seen[m.Signers[0]] {
+		if m.Message.MsgType != t || m.Message.Round != round || (!anyHeight && m.Message.Height != s.Height) || len(m.Signers) != 1 || seen[m.Signers[0]] {
 			continue
 		}
 		if pred != nil && !pred(m) {
@@ -507,7 +526,15 @@ func (s *Sim) BuildForge(f *Forge) *specqbft.SignedMessage {
 		def := Values["A"]
 		var rcj, pj []*specqbft.SignedMessage
 		if round > 1 && f.Just != "none" {
-			rcj = s.poolMsgs(specqbft.RoundChangeMsgType, round, nil)
+			if f.Just == "replay" {
+				// unprepared round-changes first, from whatever height: fakes a "nobody is prepared" quorum
+				rcj = s.poolMsgsH(specqbft.RoundChangeMsgType, round, true, func(m *specqbft.SignedMessage) bool { return !m.Message.RoundChangePrepared() })
+				if len(rcj) > s.Quorum {
+					rcj = rcj[:s.Quorum]
+				}
+			} else {
+				rcj = s.poolMsgs(specqbft.RoundChangeMsgType, round, nil)
+			}
 			have := map[spectypes.OperatorID]bool{}
 			for _, m := range rcj {
 				have[m.Signers[0]] = true
@@ -649,6 +676,33 @@ func (s *Sim) Step(op Op, onEvent func(*Event) bool) {
 				if !call(s.Timeout(id, op.TKind)) {
 					return
 				}
+			}
+		}
+	case "netfail": // the next broadcast of operator I is published but reports an error (Limit=1: it is lost instead)
+		if o := s.Ops[spectypes.OperatorID(op.I)]; o != nil {
+			if op.Limit == 1 {
+				o.Net.LoseNext++
+			} else {
+				o.Net.FailNext++
+			}
+			s.Logf("netfail op%d (lose=%v)", op.I, op.Limit == 1)
+		}
+	case "nextheight": // every started correct operator (in the mask) starts the next height
+		s.Height++
+		s.Logf("---- next height %d ----", s.Height)
+		for _, id := range s.Correct {
+			o := s.Ops[id]
+			if !s.maskHas(op.To, id) || !o.Started {
+				continue
+			}
+			ev := Event{Kind: "start", Op: id, Before: s.Snap(id)}
+			ev.Err = o.Ctrl.StartNewInstance(logger, s.Height, o.Start)
+			ev.Emitted = s.collect(o)
+			ev.After = s.Snap(id)
+			s.Logf("start op%d height %d err=%v emitted=%d", id, s.Height, ev.Err, len(ev.Emitted))
+			s.Events = append(s.Events, ev)
+			if !call(&s.Events[len(s.Events)-1]) {
+				return
 			}
 		}
 	case "forge":
